@@ -615,7 +615,7 @@ TIERS = {
     "thorough": dict(
         check=[((2, 4, 6), 6, 3, "{1}", '{"a"}', 4), ((3, 7), 6, 3, "{1}", '{"a","x"}', 5), ((1,), 6, 3, "{1}", '{"a"}', 6), ((5,), 5, 3, "{1}", '{"a"}', 4),
                ((1, 2, 3, 4, 5, 6, 7), 4, 4, "{1,2}", '{"a","x","arr","s"}', 6), ((8,), 4, 6, "{1}", '{"a","h"}', 4), ((9,), 4, 6, "{1}", '{"a"}', 4)],
-        props=[((1, 2, 3, 4, 5, 6, 7), 3, 3, "{1,2}", ALLW, 4), ((8,), 3, 6, "{1,2}", ALLW, 3), ((9,), 3, 6, "{1,2}", '{"a","p","w"}', 3)],
+        props=[((1, 2, 3, 4, 5, 6, 7), 3, 3, "{1,2}", ALLW, 4), ((8,), 3, 6, "{1,2}", ALLW, 3), ((9,), 3, 6, "{1,2}", '{"a","p"}', 3)],
         export=[(1, 4, 3, "{1}", '{"a","k"}', 1), (2, 6, 3, "{1}", '{"a"}', 1), (3, 5, 3, "{1}", '{"a","x"}', 1), (4, 5, 3, "{1}", '{"a"}', 1),
                 (5, 3, 3, "{1}", '{"a"}', 2), (6, 6, 3, "{1}", '{"a"}', 1), (7, 4, 3, "{1}", '{"a","s","arr","k"}', 1),
                 (1, 3, 3, "{1,2}", ALLW, 4), (3, 3, 3, "{1,2}", ALLW, 4), (7, 3, 4, "{1,2}", ALLW, 4), (2, 3, 4, "{1,2}", ALLW, 4),
